@@ -58,6 +58,13 @@ func genC13(seed uint64, tier string) *Plan {
 		case 0, 1, 2, 3:
 			// cluster query with a non-empty subset of partitions made to fail
 			op := Op{K: "cq", S: sql}
+			if r.Bool(0.12) {
+				// no partition fault: the caller's own row consumer fails at row
+				// N2 (a response size limit, a client going away)
+				op.N2 = int64(r.Range(1, 4))
+				p.Ops = append(p.Ops, op)
+				continue
+			}
 			if r.Bool(0.85) {
 				for part := 0; part < p.Cfg.Partitions; part++ {
 					if r.Bool(0.5) {
@@ -399,6 +406,26 @@ func c13Cluster(e *Env, c *Cluster, d *Node, p *Plan, op *Op) *Violation {
 		defer cancel()
 	}
 	pl, pd := c.Leaders[0].N.Prepare(op.S, true), d.Prepare(op.S, true)
+	if op.N2 > 0 && len(op.Sub) == 0 {
+		// the consumer fails at its N2-th row: the result is cut short, so the
+		// caller must get an error back (its own or another)
+		qd := pd.Run(QOpts{})
+		ql := pl.Run(QOpts{Ctx: ctx, ErrAt: int(op.N2)})
+		if ql.Panicked {
+			return &Violation{"panic-in-cluster-query", fmt.Sprintf("%q with a failing consumer: %v", op.S, ql.Err)}
+		}
+		if qd.Err != nil || qd.Panicked || int64(len(qd.Rows)) < op.N2 {
+			e.Count("q.error")
+			return nil
+		}
+		e.Logf("cq %q consumer fails at row %d err=%v", op.S, op.N2, ql.Err != nil)
+		e.Count("probe.cq-consumer-error")
+		if ql.Err == nil {
+			return &Violation{"consumer-error-swallowed", fmt.Sprintf("cluster query %q whose row consumer failed at row %d of %d returned err=nil (statistics %+v): the truncated result looks like a success", op.S, op.N2, len(qd.Rows), ql.Stats)}
+		}
+		e.Count("nontrivial")
+		return nil
+	}
 	ql := pl.Run(QOpts{Ctx: ctx})
 	qd := pd.Run(QOpts{})
 	if ql.Panicked {
